@@ -31,6 +31,7 @@ type c15Case struct {
 	ID   int      `json:"id"`
 	Tpl  string   `json:"tpl"`
 	Mode string   `json:"mode"` // "" or a sql_mode to set first
+	Pre  string   `json:"pre"`  // "" | "ok" | "failed": an earlier execution of the same statement with other values
 	Vals []c15Val `json:"vals"`
 }
 
@@ -66,13 +67,13 @@ func TestVerifStmtBind(t *testing.T) {
 		}()
 		se := fix.newSession(false)
 		if c.Mode != "" {
-			r := se.ExecuteCommand(mysql.ComQuery, []byte("set session sql_mode='"+c.Mode+"'"))
+			r := fix.send(se, mysql.ComQuery, []byte("set session sql_mode='"+c.Mode+"'"))
 			if r.RespType == RespError {
 				obs.Status, obs.Err = "set-refused", fmt.Sprint(r.Data)
 				return nil
 			}
 		}
-		r := se.ExecuteCommand(mysql.ComStmtPrepare, []byte(c.Tpl))
+		r := fix.send(se, mysql.ComStmtPrepare, []byte(c.Tpl))
 		if r.RespType != RespPrepare {
 			obs.Status, obs.Err = "prepare-refused", fmt.Sprint(r.Data)
 			return nil
@@ -84,6 +85,29 @@ func TestVerifStmtBind(t *testing.T) {
 			return nil
 		}
 		np := len(c.Vals)
+		if c.Pre != "" && np > 0 {
+			// an earlier execution of this statement with other values (LONG 1000+i), succeeding or failing at the backend
+			pd := make([]byte, 9)
+			binary.LittleEndian.PutUint32(pd[0:4], st.id)
+			binary.LittleEndian.PutUint32(pd[5:9], 1)
+			pd = append(pd, make([]byte, (np+7)/8)...)
+			pd = append(pd, 1)
+			for i := 0; i < np; i++ {
+				pd = append(pd, mysql.TypeLong, 0)
+			}
+			for i := 0; i < np; i++ {
+				v := make([]byte, 4)
+				binary.LittleEndian.PutUint32(v, uint32(1000+i))
+				pd = append(pd, v...)
+			}
+			fix.be.failNext = c.Pre == "failed"
+			pr := fix.send(se, mysql.ComStmtExecute, pd)
+			fix.be.failNext = false
+			if (pr.RespType == RespError) != (c.Pre == "failed") {
+				obs.Status, obs.Err = "pre-unexpected", fmt.Sprint(pr.Data)
+				return nil
+			}
+		}
 		data := make([]byte, 9)
 		binary.LittleEndian.PutUint32(data[0:4], st.id)
 		binary.LittleEndian.PutUint32(data[5:9], 1)
@@ -106,7 +130,7 @@ func TestVerifStmtBind(t *testing.T) {
 					binary.LittleEndian.PutUint32(ld[0:4], st.id)
 					binary.LittleEndian.PutUint16(ld[4:6], uint16(i))
 					ld = append(ld, chunk...)
-					if rr := se.ExecuteCommand(mysql.ComStmtSendLongData, ld); rr.RespType == RespError {
+					if rr := fix.send(se, mysql.ComStmtSendLongData, ld); rr.RespType == RespError {
 						obs.Status, obs.Err = "refused", fmt.Sprint(rr.Data)
 						return nil
 					}
@@ -123,7 +147,7 @@ func TestVerifStmtBind(t *testing.T) {
 			data = append(data, values...)
 		}
 		fix.be.take()
-		r = se.ExecuteCommand(mysql.ComStmtExecute, data)
+		r = fix.send(se, mysql.ComStmtExecute, data)
 		for _, s := range fix.be.take() {
 			obs.Out = append(obs.Out, hex.EncodeToString([]byte(s)))
 		}
